@@ -272,6 +272,59 @@ def collect_sites(P, b):
     return sites
 
 
+
+def nodes_with_facts(root, pred):
+    """[(node, facts)] for every node under `root` satisfying pred, with the path facts that dominate it (same tracking as
+    collect_sites: if/else branches, statements after a diverging `if`, while conditions)"""
+    out = []
+
+    def visit(n, facts):
+        k = n.get("k")
+        if pred(n):
+            out.append((n, tuple(facts)))
+        if k == "block":
+            fs = list(facts)
+            for st in n.get("stmts", ()):
+                visit(st, fs)
+                x = st["e"] if st.get("k") == "semi" else st
+                x = ir.unparen(x) if x.get("k") == "block" else x
+                if x.get("k") == "if" and "else" not in x and ir.diverges(x["then"]):
+                    cond_facts(x["c"], False, fs)
+                elif x.get("k") == "if" and "else" in x and ir.diverges(x["else"]) and not ir.diverges(x["then"]):
+                    cond_facts(x["c"], True, fs)
+                elif x.get("k") == "block":
+                    for y in x.get("stmts", ()):
+                        y = y["e"] if y.get("k") == "semi" else y
+                        if y.get("k") == "if" and "else" not in y and ir.diverges(y["then"]):
+                            cond_facts(y["c"], False, fs)
+                    t = x.get("tail")
+                    if t is not None and t.get("k") == "if" and "else" not in t and ir.diverges(t["then"]):
+                        cond_facts(t["c"], False, fs)
+            if "tail" in n:
+                visit(n["tail"], fs)
+            return
+        if k == "if":
+            visit(n["c"], facts)
+            ft = list(facts)
+            cond_facts(n["c"], True, ft)
+            visit(n["then"], ft)
+            if "else" in n:
+                fe = list(facts)
+                cond_facts(n["c"], False, fe)
+                visit(n["else"], fe)
+            return
+        if k == "while":
+            visit(n["c"], facts)
+            fb = list(facts)
+            cond_facts(n["c"], True, fb)
+            visit(n["body"], fb)
+            return
+        for c in ir.children(n):
+            visit(c, facts)
+    visit(root, [])
+    return out
+
+
 def _recv_desc(r):
     r = ir.strip(r)
     if r.get("k") in ("mcall", "call"):
